@@ -25,10 +25,11 @@ const fhirQuantityRegexp = `^(?P<value>(\+|-)?\d+(\.\d+)?)\s*('(?P<unit>[^']+)'|
 
 var regex = regexp.MustCompile(fhirQuantityRegexp)
 
-// String renderings accepted by toDecimal and toTime.
+// String renderings accepted by toDecimal, toTime and toDateTime.
 var (
-	decimalRegexp = regexp.MustCompile(`^(\+|-)?\d+(\.\d+)?$`)
-	timeRegexp    = regexp.MustCompile(`^\d\d(:\d\d(:\d\d(\.\d+)?)?)?$`)
+	decimalRegexp  = regexp.MustCompile(`^(\+|-)?\d+(\.\d+)?$`)
+	timeRegexp     = regexp.MustCompile(`^\d\d(:\d\d(:\d\d(\.\d+)?)?)?$`)
+	dateTimeRegexp = regexp.MustCompile(`^\d{4}(-\d\d(-\d\d)?)?(T(\d\d(:\d\d(:\d\d(\.\d+)?)?)?(Z|(\+|-)\d\d:\d\d)?)?)?$`)
 )
 
 // ConvertsToBoolean checks if the input can be converted to a Boolean
@@ -333,6 +334,9 @@ func ToDateTime(ctx *expr.Context, input system.Collection, args ...expr.Express
 	case system.String:
 		if strings.HasPrefix(string(value), "@") {
 			return system.Collection{}, nil // '@' belongs to the literal syntax, not to the string form
+		}
+		if !dateTimeRegexp.MatchString(string(value)) {
+			return system.Collection{}, nil // time.Parse would accept a one-digit hour
 		}
 		result, err := system.ParseDateTime(string(value))
 		if err != nil {
